@@ -216,6 +216,8 @@ def run(M, rec, tier, seed, k, n):
         W.numpy_steps(M, rec, rng, 150 if tier == "quick" else 1500, draws=2)
     finally:
         mon.uninstall()
+    if k == 0:
+        W.repo_tests(rec, [PROP])
     rec.sample({"note": "see coverage_set_members.prim_x_shapes for the (primitive, argument shapes) pairs observed"})
 
 
